@@ -1,3 +1,673 @@
 package main
 
-func cliMain(args []string) int { return 2 }
+import (
+	"bufio"
+	"encoding/json"
+	"flag"
+	"fmt"
+	"os"
+	"os/exec"
+	"path/filepath"
+	"runtime"
+	"runtime/pprof"
+	"sort"
+	"strconv"
+	"strings"
+	"sync"
+	"time"
+)
+
+const verifDir = "/verif"
+
+func envSeed() uint64 {
+	if s := os.Getenv("VERIF_SEED"); s != "" {
+		if v, err := strconv.ParseUint(s, 10, 64); err == nil {
+			return v
+		}
+		if v, err := strconv.ParseInt(s, 10, 64); err == nil {
+			return uint64(v)
+		}
+	}
+	return 20261003
+}
+
+// RunResult is what a worker reports for one simulated run (one JSON line).
+type RunResult struct {
+	Seed       uint64           `json:"seed"`
+	Prop       string           `json:"prop"`
+	Trace      string           `json:"trace"`
+	Blocks     int              `json:"blocks"`
+	Steps      int              `json:"steps"`
+	SimTimeS   float64          `json:"sim_time_s"`
+	WallMs     int64            `json:"wall_ms"`
+	Stats      map[string]int64 `json:"stats"`
+	Violations []*Violation     `json:"violations,omitempty"`
+	Known      []string         `json:"known,omitempty"`
+	Foreign    []string         `json:"foreign,omitempty"`
+	ScriptPath string           `json:"script_path,omitempty"`
+	Sample     json.RawMessage  `json:"sample,omitempty"`
+	Err        string           `json:"err,omitempty"`
+}
+
+func runSeed(seed uint64, prop, tier string, env *Env, known *KnownFindings, scratch, tracePath string) (*Exec, *Script) {
+	s := GenerateScript(seed, prop, tier, env)
+	e := runScript(s, env, known, scratch, tracePath)
+	return e, s
+}
+
+func runScript(s *Script, env *Env, known *KnownFindings, scratch, tracePath string) *Exec {
+	dir, err := os.MkdirTemp(scratch, "run")
+	if err != nil {
+		panic(err)
+	}
+	defer os.RemoveAll(dir)
+	e := NewExec(s, env, dir, known, tracePath)
+	e.Run()
+	return e
+}
+
+func scriptSummary(s *Script) json.RawMessage {
+	kinds := map[string]int{}
+	var firstTx []string
+	for i := range s.Steps {
+		st := &s.Steps[i]
+		kinds[st.K]++
+		if st.K == "tx" && st.Tx != nil && len(firstTx) < 12 {
+			var ts []string
+			for _, m := range st.Tx.Msgs {
+				ts = append(ts, m.T)
+			}
+			d := strings.Join(ts, "+")
+			if st.Tx.SignOver != nil {
+				d += "[tampered]"
+			}
+			if st.Tx.ReplayOf != 0 {
+				d = fmt.Sprintf("replay-bytes-of-%d", st.Tx.ReplayOf)
+			}
+			if st.Tx.Signers != nil {
+				d += fmt.Sprintf("[signed-by %v]", st.Tx.Signers)
+			}
+			firstTx = append(firstTx, d)
+		}
+		if (st.K == "crash" || st.K == "lag" || st.K == "bootstrap" || st.K == "upgrade" || st.K == "reconfig") && len(firstTx) < 12 {
+			d := st.K
+			if st.At != nil {
+				d += fmt.Sprintf("(replica %d at %s/%d %s)", st.Replica, st.At.Kind, st.At.N, st.At.Loss)
+			}
+			firstTx = append(firstTx, d)
+		}
+	}
+	bz, _ := json.Marshal(map[string]interface{}{"seed": s.Seed, "replicas": s.Config.Replicas, "step_kinds": kinds, "first_steps": firstTx,
+		"seeded_genesis": s.Config.Genesis.Aol != nil, "genesis_time": s.Config.Genesis.TimeUnix})
+	return bz
+}
+
+func workerMain(args []string) int {
+	fs := flag.NewFlagSet("worker", flag.ExitOnError)
+	prop := fs.String("prop", "", "property id")
+	tier := fs.String("tier", "quick", "tier")
+	base := fs.Uint64("base", 1, "seed base")
+	start := fs.Int("start", 0, "first index")
+	stride := fs.Int("stride", 1, "index stride")
+	count := fs.Int("count", 1<<30, "max runs")
+	budget := fs.Float64("budget", 30, "wall-clock budget in seconds")
+	scratch := fs.String("scratch", os.TempDir(), "scratch dir")
+	_ = fs.Parse(args)
+	env := NewEnv()
+	known := LoadKnown(filepath.Join(verifDir, "known_findings.json"))
+	out := bufio.NewWriter(os.Stdout)
+	defer out.Flush()
+	t0 := time.Now()
+	n := 0
+	for i := *start; n < *count; i += *stride {
+		if time.Since(t0).Seconds() > *budget && n > 0 {
+			break
+		}
+		seed := *base*1_000_003 + uint64(i)
+		rr := oneRun(seed, *prop, *tier, env, known, *scratch, n == 0)
+		bz, _ := json.Marshal(rr)
+		out.Write(bz)
+		out.WriteByte('\n')
+		out.Flush()
+		n++
+		if len(rr.Violations) > 0 {
+			break // the driver minimises and reports; further runs of this worker would only repeat it
+		}
+	}
+	return 0
+}
+
+func oneRun(seed uint64, prop, tier string, env *Env, known *KnownFindings, scratch string, wantSample bool) (rr *RunResult) {
+	rr = &RunResult{Seed: seed, Prop: prop}
+	t0 := time.Now()
+	var s *Script
+	defer func() {
+		if r := recover(); r != nil {
+			rr.Err = fmt.Sprintf("harness panic: %v", r)
+			if s != nil {
+				p := filepath.Join(scratch, fmt.Sprintf("harness-panic-%s-%d.json", prop, seed))
+				bz, _ := json.Marshal(s)
+				_ = os.WriteFile(p, bz, 0o644)
+				rr.ScriptPath = p
+			}
+		}
+	}()
+	s = GenerateScript(seed, prop, tier, env)
+	e := runScript(s, env, known, scratch, "")
+	rr.Trace = e.Trace.Sum()
+	rr.Blocks = len(e.Blocks)
+	rr.Steps = len(s.Steps)
+	rr.SimTimeS = e.simTime.Seconds()
+	rr.WallMs = time.Since(t0).Milliseconds()
+	rr.Stats = e.Stats.C
+	rr.Violations = e.Viol
+	rr.Known = e.KnownHits
+	for _, f := range e.Foreign {
+		rr.Foreign = append(rr.Foreign, f.Property+":"+f.Class)
+	}
+	if wantSample {
+		rr.Sample = scriptSummary(s)
+	}
+	if len(e.Viol) > 0 {
+		p := filepath.Join(scratch, fmt.Sprintf("viol-%s-%d.json", prop, seed))
+		s.Violation = e.Viol[0]
+		s.TraceHash = rr.Trace
+		bz, _ := json.MarshalIndent(s, "", " ")
+		_ = os.WriteFile(p, bz, 0o644)
+		rr.ScriptPath = p
+	}
+	return rr
+}
+
+// ---------------------------------------------------------------------------------------------
+// check driver
+
+type tierCfg struct {
+	BudgetS float64
+	Workers int
+}
+
+func tierOf(prop, tier string) tierCfg {
+	w := runtime.NumCPU()
+	if w > 16 {
+		w = 16
+	}
+	if w < 2 {
+		w = 2
+	}
+	if tier == "thorough" {
+		return tierCfg{BudgetS: envFloat("VERIF_THOROUGH_S", 900), Workers: w}
+	}
+	return tierCfg{BudgetS: envFloat("VERIF_QUICK_S", 40), Workers: w}
+}
+
+func envFloat(k string, d float64) float64 {
+	if s := os.Getenv(k); s != "" {
+		if v, err := strconv.ParseFloat(s, 64); err == nil {
+			return v
+		}
+	}
+	return d
+}
+
+func checkMain(args []string) int {
+	if len(args) < 1 {
+		fmt.Fprintln(os.Stderr, "usage: panasim check <PROP> [quick|thorough]")
+		return 2
+	}
+	prop := args[0]
+	tier := "quick"
+	if len(args) > 1 {
+		tier = args[1]
+	}
+	if t := os.Getenv("VERIF_TIER"); t != "" && len(args) < 2 {
+		tier = t
+	}
+	if prop == "C20" {
+		return checkC20(tier)
+	}
+	return checkChain(prop, tier)
+}
+
+func checkChain(prop, tier string) int {
+	seed := envSeed()
+	fmt.Printf("panasim check property=%s tier=%s VERIF_SEED=%d\n", prop, tier, seed)
+	tc := tierOf(prop, tier)
+	t0 := time.Now()
+	scratch, err := os.MkdirTemp("", "panasim-"+prop+"-")
+	if err != nil {
+		fmt.Println("cannot create scratch:", err)
+		return 2
+	}
+	defer os.RemoveAll(scratch)
+	self, _ := os.Executable()
+	var mu sync.Mutex
+	var results []*RunResult
+	var wg sync.WaitGroup
+	workerTrouble := ""
+	for w := 0; w < tc.Workers; w++ {
+		wg.Add(1)
+		go func(w int) {
+			defer wg.Done()
+			cmd := exec.Command(self, "worker", "--prop", prop, "--tier", tier, "--base", fmt.Sprint(seed), "--start", fmt.Sprint(w), "--stride", fmt.Sprint(tc.Workers),
+				"--budget", fmt.Sprint(tc.BudgetS), "--scratch", scratch)
+			gmp := []string{"1", "4", "16"}[w%3]
+			cmd.Env = append(os.Environ(), "GOMAXPROCS="+gmp)
+			var stderr strings.Builder
+			cmd.Stderr = &stderr
+			outp, err := cmd.StdoutPipe()
+			if err != nil {
+				mu.Lock()
+				workerTrouble = err.Error()
+				mu.Unlock()
+				return
+			}
+			if err := cmd.Start(); err != nil {
+				mu.Lock()
+				workerTrouble = err.Error()
+				mu.Unlock()
+				return
+			}
+			sc := bufio.NewScanner(outp)
+			sc.Buffer(make([]byte, 1<<20), 1<<26)
+			for sc.Scan() {
+				var rr RunResult
+				if err := json.Unmarshal(sc.Bytes(), &rr); err == nil {
+					mu.Lock()
+					results = append(results, &rr)
+					mu.Unlock()
+				}
+			}
+			if err := cmd.Wait(); err != nil {
+				mu.Lock()
+				workerTrouble = fmt.Sprintf("worker %d exited abnormally: %v; stderr tail: %s", w, err, tail(stderr.String(), 1500))
+				mu.Unlock()
+			}
+		}(w)
+	}
+	wg.Wait()
+	sort.Slice(results, func(i, j int) bool { return results[i].Seed < results[j].Seed })
+	if workerTrouble != "" {
+		fmt.Println("MACHINERY-TROUBLE:", workerTrouble)
+		return 2
+	}
+	for _, r := range results {
+		if r.Err != "" {
+			fmt.Printf("MACHINERY-TROUBLE: run seed=%d: %s (script: %s)\n", r.Seed, r.Err, r.ScriptPath)
+			if r.ScriptPath != "" {
+				keep := filepath.Join(verifDir, "replays", filepath.Base(r.ScriptPath))
+				_ = os.MkdirAll(filepath.Dir(keep), 0o755)
+				bz, _ := os.ReadFile(r.ScriptPath)
+				_ = os.WriteFile(keep, bz, 0o644)
+			}
+			return 2
+		}
+	}
+	if len(results) == 0 {
+		fmt.Println("MACHINERY-TROUBLE: no runs completed")
+		return 2
+	}
+	// known findings
+	knownSeen := map[string]bool{}
+	for _, r := range results {
+		for _, k := range r.Known {
+			if !knownSeen[k] {
+				knownSeen[k] = true
+				fmt.Println("KNOWN-FINDING: " + k)
+			}
+		}
+	}
+	// violations: minimise the first (lowest seed), confirm in a fresh process
+	exit := 0
+	nviol := 0
+	var reported []string
+	seenClass := map[string]bool{}
+	env := (*Env)(nil)
+	for _, r := range results {
+		if len(r.Violations) == 0 {
+			continue
+		}
+		nviol++
+		v := r.Violations[0]
+		ck := v.Property + "|" + v.Class
+		if seenClass[ck] || len(reported) >= 3 {
+			continue
+		}
+		seenClass[ck] = true
+		if env == nil {
+			env = NewEnv()
+		}
+		path, code := minimiseAndConfirm(r, env, scratch)
+		if code == 2 {
+			fmt.Printf("MACHINERY-TROUBLE: violation of %s (class %s, seed %d) does not replay deterministically; script kept at %s\n", v.Property, v.Class, r.Seed, path)
+			exit = 2
+			continue
+		}
+		fmt.Printf("violation: property=%s class=%s seed=%d: %s\n", v.Property, v.Class, r.Seed, trunc(v.Detail, 700))
+		fmt.Printf("VIOLATION property=%s replay=%s\n", v.Property, path)
+		reported = append(reported, path)
+		if exit == 0 {
+			exit = 1
+		}
+	}
+	wall := time.Since(t0).Seconds()
+	if err := writeEvidence(prop, tier, seed, results, nviol, wall, tc); err != nil {
+		fmt.Println("MACHINERY-TROUBLE: cannot write evidence:", err)
+		return 2
+	}
+	fmt.Printf("runs=%d violations=%d wall=%.1fs\n", len(results), nviol, wall)
+	return exit
+}
+
+func tail(s string, n int) string {
+	if len(s) <= n {
+		return s
+	}
+	return s[len(s)-n:]
+}
+
+// ---------------------------------------------------------------------------------------------
+// minimisation and replay
+
+func sameClass(e *Exec, v *Violation) bool {
+	for _, x := range e.Viol {
+		if x.Property == v.Property && x.Class == v.Class {
+			return true
+		}
+	}
+	return false
+}
+
+func minimiseAndConfirm(r *RunResult, env *Env, scratch string) (string, int) {
+	bz, err := os.ReadFile(r.ScriptPath)
+	if err != nil {
+		return r.ScriptPath, 2
+	}
+	var s Script
+	if err := json.Unmarshal(bz, &s); err != nil {
+		return r.ScriptPath, 2
+	}
+	known := LoadKnown(filepath.Join(verifDir, "known_findings.json"))
+	target := s.Violation
+	try := func(steps []Step, cfg RunConfig) (*Exec, bool) {
+		c := s
+		c.Steps = steps
+		c.Config = cfg
+		c.Violation = nil
+		var e *Exec
+		ok := false
+		func() {
+			defer func() { recover() }()
+			e = runScript(&c, env, known, scratch, "")
+			ok = sameClass(e, target)
+		}()
+		return e, ok
+	}
+	steps := s.Steps
+	cfg := s.Config
+	deadline := time.Now().Add(time.Duration(envFloat("VERIF_MINIMISE_S", 90)) * time.Second)
+	tries := 0
+	// truncate after the violating step first
+	if target.AtStep+1 < len(steps) {
+		cand := append([]Step(nil), steps[:target.AtStep+1]...)
+		if cand[len(cand)-1].K != "block" {
+			cand = append(cand, Step{K: "block"})
+		}
+		c2 := cfg
+		c2.EpilogueOff = true
+		if _, ok := try(cand, c2); ok {
+			steps, cfg = cand, c2
+		}
+	}
+	if _, ok := try(steps, withEpilogueOff(cfg)); ok {
+		cfg = withEpilogueOff(cfg)
+	}
+	// ddmin
+	n := 2
+	for len(steps) >= 2 && time.Now().Before(deadline) && tries < 400 {
+		chunk := (len(steps) + n - 1) / n
+		reduced := false
+		for i := 0; i < len(steps); i += chunk {
+			end := i + chunk
+			if end > len(steps) {
+				end = len(steps)
+			}
+			cand := append(append([]Step(nil), steps[:i]...), steps[end:]...)
+			if len(cand) == 0 {
+				continue
+			}
+			tries++
+			if _, ok := try(cand, cfg); ok {
+				steps = cand
+				if n > 2 {
+					n--
+				}
+				reduced = true
+				break
+			}
+			if time.Now().After(deadline) || tries >= 400 {
+				break
+			}
+		}
+		if !reduced {
+			if chunk <= 1 {
+				break
+			}
+			n *= 2
+			if n > len(steps) {
+				n = len(steps)
+			}
+		}
+	}
+	// simplifications: fewer replicas, no seeded genesis, no mid-block tasks
+	for len(cfg.Replicas) > 1 && time.Now().Before(deadline) {
+		c2 := cfg
+		c2.Replicas = cfg.Replicas[:len(cfg.Replicas)-1]
+		if _, ok := try(steps, c2); ok {
+			cfg = c2
+		} else {
+			break
+		}
+	}
+	for _, f := range []func(c *RunConfig){
+		func(c *RunConfig) { c.Genesis.Aol, c.Genesis.Did, c.Genesis.Pnft = nil, nil, nil },
+		func(c *RunConfig) { c.MidBlockRate = 0 },
+		func(c *RunConfig) { c.CrashEnum = 0 },
+		func(c *RunConfig) { c.Genesis.ExtraDenoms = nil },
+	} {
+		if time.Now().After(deadline) {
+			break
+		}
+		c2 := cfg
+		f(&c2)
+		if _, ok := try(steps, c2); ok {
+			cfg = c2
+		}
+	}
+	// final execution to record the violation and trace hash of the minimised script
+	final := s
+	final.Steps, final.Config, final.Violation = steps, cfg, nil
+	e := runScript(&final, env, known, scratch, "")
+	if !sameClass(e, target) {
+		// fall back to the original script
+		final = s
+		final.Violation = nil
+		e = runScript(&final, env, known, scratch, "")
+		if !sameClass(e, target) {
+			return r.ScriptPath, 2
+		}
+	}
+	for _, x := range e.Viol {
+		if x.Property == target.Property && x.Class == target.Class {
+			final.Violation = x
+			break
+		}
+	}
+	final.TraceHash = e.Trace.Sum()
+	_ = os.MkdirAll(filepath.Join(verifDir, "replays"), 0o755)
+	path := filepath.Join(verifDir, "replays", fmt.Sprintf("%s-%d-%s.json", target.Property, s.Seed, sanitize(target.Class)))
+	out, _ := json.MarshalIndent(&final, "", " ")
+	if err := os.WriteFile(path, out, 0o644); err != nil {
+		return path, 2
+	}
+	fmt.Printf("minimised %d -> %d steps (%d candidate executions)\n", len(s.Steps), len(final.Steps), tries)
+	// fresh-process confirmation
+	self, _ := os.Executable()
+	cmd := exec.Command(self, "replay", path)
+	outb, err := cmd.CombinedOutput()
+	code := 0
+	if ee, ok := err.(*exec.ExitError); ok {
+		code = ee.ExitCode()
+	} else if err != nil {
+		code = 2
+	}
+	if code != 1 || !strings.Contains(string(outb), "REPLAY-OK") {
+		fmt.Printf("fresh-process replay did not reproduce (exit %d): %s\n", code, tail(string(outb), 800))
+		return path, 2
+	}
+	return path, 1
+}
+
+func withEpilogueOff(c RunConfig) RunConfig { c.EpilogueOff = true; return c }
+
+func sanitize(s string) string {
+	var b strings.Builder
+	for _, c := range s {
+		if c >= 'a' && c <= 'z' || c >= 'A' && c <= 'Z' || c >= '0' && c <= '9' || c == '_' || c == '-' {
+			b.WriteRune(c)
+		} else {
+			b.WriteByte('_')
+		}
+	}
+	return b.String()
+}
+
+func replayMain(args []string) int {
+	if len(args) < 1 {
+		fmt.Fprintln(os.Stderr, "usage: panasim replay <file> [--trace out]")
+		return 2
+	}
+	bz, err := os.ReadFile(args[0])
+	if err != nil {
+		fmt.Println("cannot read replay file:", err)
+		return 2
+	}
+	if strings.Contains(args[0], "ks-") || strings.Contains(string(bz[:min(len(bz), 200)]), `"engine": "ks"`) {
+		return replayKS(bz)
+	}
+	var s Script
+	if err := json.Unmarshal(bz, &s); err != nil {
+		fmt.Println("bad replay file:", err)
+		return 2
+	}
+	tracePath := ""
+	if len(args) >= 3 && args[1] == "--trace" {
+		tracePath = args[2]
+	}
+	want := s.Violation
+	wantTrace := s.TraceHash
+	s.Violation = nil
+	env := NewEnv()
+	scratch, _ := os.MkdirTemp("", "panasim-replay-")
+	defer os.RemoveAll(scratch)
+	e := runScript(&s, env, LoadKnown(filepath.Join(verifDir, "known_findings.json")), scratch, tracePath)
+	fmt.Printf("replay seed=%d property=%s steps=%d blocks=%d trace=%s\n", s.Seed, s.Property, len(s.Steps), len(e.Blocks), e.Trace.Sum())
+	for _, k := range e.KnownHits {
+		fmt.Println("KNOWN-FINDING: " + k)
+	}
+	if len(e.Viol) == 0 {
+		fmt.Println("no violation on this tree")
+		if want != nil {
+			fmt.Println("REPLAY-NOT-REPRODUCED (the recorded violation was: " + want.Class + ")")
+		}
+		return 0
+	}
+	v := e.Viol[0]
+	fmt.Printf("violation: property=%s class=%s at_step=%d: %s\n", v.Property, v.Class, v.AtStep, v.Detail)
+	if want != nil {
+		if want.Property == v.Property && want.Class == v.Class && (wantTrace == "" || wantTrace == e.Trace.Sum()) {
+			fmt.Println("REPLAY-OK (same violation class and identical trace hash)")
+		} else if want.Property == v.Property && want.Class == v.Class {
+			fmt.Println("REPLAY-SAME-CLASS (trace hash differs: the tree or the harness changed since the file was written)")
+		} else {
+			fmt.Println("REPLAY-DIFFERENT-VIOLATION")
+		}
+	}
+	fmt.Printf("VIOLATION property=%s replay=%s\n", v.Property, args[0])
+	return 1
+}
+
+func min(a, b int) int {
+	if a < b {
+		return a
+	}
+	return b
+}
+
+func runMain(args []string) int {
+	fs := flag.NewFlagSet("run", flag.ExitOnError)
+	prop := fs.String("prop", "ALL", "property")
+	tier := fs.String("tier", "quick", "tier")
+	seed := fs.Uint64("seed", 1, "seed")
+	trace := fs.String("trace", "", "trace file")
+	dump := fs.String("dump", "", "write the generated script here")
+	prof := fs.String("cpuprofile", "", "write a CPU profile")
+	_ = fs.Parse(args)
+	if *prof != "" {
+		f, _ := os.Create(*prof)
+		_ = pprof.StartCPUProfile(f)
+		defer pprof.StopCPUProfile()
+	}
+	env := NewEnv()
+	scratch, _ := os.MkdirTemp("", "panasim-run-")
+	defer os.RemoveAll(scratch)
+	t0 := time.Now()
+	s := GenerateScript(*seed, *prop, *tier, env)
+	if *dump != "" {
+		bz, _ := json.MarshalIndent(s, "", " ")
+		_ = os.WriteFile(*dump, bz, 0o644)
+	}
+	e := runScript(s, env, LoadKnown(filepath.Join(verifDir, "known_findings.json")), scratch, *trace)
+	fmt.Printf("seed=%d prop=%s steps=%d blocks=%d wall=%v trace=%s\n", *seed, *prop, len(s.Steps), len(e.Blocks), time.Since(t0), e.Trace.Sum())
+	for _, v := range e.Viol {
+		fmt.Printf("VIOL %s %s step=%d: %s\n", v.Property, v.Class, v.AtStep, v.Detail)
+	}
+	for _, v := range e.Foreign {
+		fmt.Printf("FOREIGN %s %s: %s\n", v.Property, v.Class, trunc(v.Detail, 300))
+	}
+	for _, k := range e.KnownHits {
+		fmt.Println("KNOWN", k)
+	}
+	ks := make([]string, 0, len(e.Stats.C))
+	for k := range e.Stats.C {
+		ks = append(ks, k)
+	}
+	sort.Strings(ks)
+	for _, k := range ks {
+		fmt.Printf("  %s=%d", k, e.Stats.C[k])
+	}
+	fmt.Println()
+	if len(e.Viol) > 0 {
+		return 1
+	}
+	return 0
+}
+
+func cliMain(args []string) int {
+	switch args[0] {
+	case "check":
+		return checkMain(args[1:])
+	case "worker":
+		return workerMain(args[1:])
+	case "replay":
+		return replayMain(args[1:])
+	case "run":
+		return runMain(args[1:])
+	case "selftest":
+		return selftestMain(args[1:])
+	case "ksworker":
+		return ksWorkerMain(args[1:])
+	}
+	fmt.Fprintln(os.Stderr, "unknown command", args[0])
+	return 2
+}
